@@ -1,9 +1,18 @@
 From Coq Require Import ZArith List Bool.
-From Coba Require Import Common.Sx C04.Model.
+From Coba Require Import Common.Sx C04.Model C04.ModelOps.
 Import ListNotations.
 (* request: (n_slice source history) with history = list of () full / (k) partial -> list of the reads' outputs *)
+(* with a fourth field: (n_slice source events 1), events = (0) complete read / (0 k) read abandoned after k / (1 f) the source raises at item f / (2) pickled *)
+Definition op_of (e : sx) : cop :=
+  match as_z (nth_sx 0 e) with
+  | 0%Z => ORead (match as_l e with [_; k] => Some (as_nat k) | _ => None end)
+  | 1%Z => OFail (as_nat (nth_sx 1 e))
+  | _ => OPickle
+  end.
 Definition run (x : sx) : sx :=
   let n := as_nat (nth_sx 0 x) in
   let src := as_zs (nth_sx 1 x) in
-  let h := map (as_opt as_nat) (as_l (nth_sx 2 x)) in
-  L_ (map of_zs (reads n src h init)).
+  match as_l x with
+  | [_; _; evs; _] => L_ (map of_zs (run_ops n reset_now false src (map op_of (as_l evs)) init))
+  | _ => let h := map (as_opt as_nat) (as_l (nth_sx 2 x)) in L_ (map of_zs (reads n src h init))
+  end.
